@@ -794,6 +794,35 @@ func c06To(t *rapid.T, re *rootEnv, h *history) {
 		// nil containers there) — with every attribute type present
 		var T types.Object
 		var err error
+		if coin(t, 1, 3, "tplaceholder") {
+			// a target written by hand the way fixtures are: every attribute type present, lists and maps
+			// held as `types.List{Null: true}` / `types.Map{Null: true}` WITHOUT an element type, scalars as
+			// typed nulls, nested objects absent
+			T = re.emptyObject()
+			names := make([]string, 0, len(T.AttrTypes))
+			for k := range T.AttrTypes {
+				names = append(names, k)
+			}
+			sort.Strings(names)
+			for _, k := range names {
+				switch T.AttrTypes[k].(type) {
+				case types.ListType:
+					T.Attrs[k] = types.List{Null: true}
+				case types.MapType:
+					T.Attrs[k] = types.Map{Null: true}
+				}
+			}
+			h.add("TargetPlaceholders", "lists and maps without element types")
+			var ds diag.Diagnostics
+			if p := safely(func() { ds = re.fn.To(ctx, src, &T) }); p != "" {
+				violate(t, "C06/copy-to/no-panic/placeholder-target", "CopyTo panicked on a target holding list / map placeholders: %s\nhistory: %s", p, strings.Join(h.lines, " ; "))
+			}
+			if errs := errorDiags(ds); len(errs) > 0 {
+				violate(t, "C06/copy-to/no-spurious-diagnostic", "CopyTo onto a target with every attribute type present reported %v\nhistory: %s", errs, strings.Join(h.lines, " ; "))
+			}
+			st.probe("copy-to-onto-placeholder-target")
+			return
+		}
 		if coin(t, 1, 2, "tkind") {
 			T, err = re.decode(genTF(t, re, modeState, "tstate"))
 			h.add("TargetDecoded", "")
